@@ -37,8 +37,10 @@ def jobs(tier):
         for mix in ("AA", "AB", "AS", "SS"):
             if tier == "quick" and ((not shared and mix != "AS") or (shared and mix in ("AB", "SS"))):
                 continue
-            js.append(("job_interleave", dict(_name="2 sessions %s shared_params=%d: %d schedules" % (mix, shared, len(scheds2)),
-                                              roles=list(mix), shared=shared, ops=3, scheds=scheds2)))
+            for ci in range(4):
+                ch = scheds2[ci::4]
+                js.append(("job_interleave", dict(_name="2 sessions %s shared_params=%d: schedules %d/4 (%d of %d)" % (mix, shared, ci + 1, len(ch), len(scheds2)),
+                                                  roles=list(mix), shared=shared, ops=3, scheds=ch)))
     chunks = [scheds3[i::6] for i in range(6)]
     for i, ch in enumerate(chunks):
         if tier == "quick" and i > 0:
